@@ -56,7 +56,7 @@ def queries(tier):
                        'precision default; "0" pad iff one integer digit; result == integer text + seconds text' % (MAGN[mag], 'any negative' if p < 0 else p, nint),
                   bounds='all usecs of the class%s' % ('' if mag == 3 else ' whose seconds value admits that shape'))
     for mag in (1, 2, 3):
-        q('dur_fields_m%d' % mag, 'h_duration.c', {'MAG': mag, 'PREC': 1, 'NINT': 2, 'CHECK': 1}, 26, 600, backend='cvc5', cost=100,
+        q('dur_fields_m%d' % mag, 'h_duration.c', {'MAG': mag, 'PREC': 1, 'NINT': 2, 'CHECK': 1}, 26, 900, backend=('cvc5' if mag == 3 else ''), cost=1000,
           desc='format_duration integer fields (usecs %s): hours < 24, minutes < 60, leading field >= 1, usecs - (days,hours,minutes) in [0, 60 s)' % MAGN[mag],
           bounds='all usecs of the class')
     for mag in (0, 1, 2, 3):
